@@ -11,6 +11,7 @@ import (
 	"sort"
 	"strings"
 	"sync"
+	"syscall"
 	"time"
 
 	"github.com/ProtonMail/go-crypto/openpgp"
@@ -720,7 +721,13 @@ func (repo *GoGitRepo) RemoveRef(ref string) error {
 	repo.rMutex.Lock()
 	defer repo.rMutex.Unlock()
 
-	return repo.r.Storer.RemoveReference(plumbing.ReferenceName(ref))
+	err := repo.r.Storer.RemoveReference(plumbing.ReferenceName(ref))
+	if errors.Is(err, syscall.ENOTDIR) {
+		// a file sits where a directory of the reference name would be (for instance a branch called "bugs"
+		// on that remote, when removing refs/remotes/<remote>/bugs/<id>): the reference can't exist
+		return nil
+	}
+	return err
 }
 
 // ListRefs will return a list of Git ref matching the given refspec
